@@ -5,6 +5,7 @@ package main
 import (
 	"errors"
 	"path/filepath"
+	"strings"
 )
 
 // fixed schema pool; values are drawn per document
@@ -56,6 +57,8 @@ func c07Op(r *rng, sym byte) hop {
 		return hop{op: 'A', doc: poolDoc(r, 'D')}
 	case 'g': // same keys and metric count as A, the type of the SECOND metric differs: refused after the first metric was looked at
 		return hop{op: 'A', doc: poolDoc(r, 'G')}
+	case 'z': // a sample without any metric
+		return hop{op: 'A', doc: poolDoc(r, 'Z')}
 	case 'u':
 		return hop{op: 'A', raw: []byte{0x03, 0x00, 0x00}}
 	case 'r':
@@ -131,6 +134,23 @@ func init() {
 				})
 			}
 		}
+		// 1b. samples without metrics mixed with ordinary ones: every history up to length 4 over {a, z, f, r}
+		for _, kind := range compressingKinds {
+			for _, n := range ns {
+				enumerate("azfr", 4, func(h string) {
+					if !strings.Contains(h, "z") || (!thorough && len(h) == 4 && !r.chance(1, 3)) {
+						return
+					}
+					c := hcase{kind: kind, n: n, probe: true}
+					c.wrapper = pickWrapper(r, kind)
+					for i := 0; i < len(h); i++ {
+						c.ops = append(c.ops, c07Op(r, h[i]))
+					}
+					id++
+					runHistory(ho, id, c)
+				})
+			}
+		}
 		// 2. random long histories (adds dominate; N up to 5)
 		nrand := 300
 		if thorough {
@@ -145,7 +165,7 @@ func init() {
 			c.wrapper = pickWrapper(r, c.kind)
 			l := 5 + r.intn(40)
 			for i := 0; i < l; i++ {
-				sym := "aaaaaaabbburxfmign"[r.intn(18)]
+				sym := "aaaaaaabbburxfmignz"[r.intn(19)]
 				if (c.kind == "dyn" || c.kind == "sdyn") && r.chance(1, 6) {
 					sym = 'd'
 				}
